@@ -168,7 +168,8 @@ class CliSim:
                     inv['user_fault'] = rng.choice(USER_FAULTS[cmd])
                 if cmd == 'clip':
                     g = clipsim.gen_geometry(rng, world)
-                    form = rng.choice(['bounds', 'bounds', 'geojson_string', 'geojson_file', 'json_file', 'shared_file', 'shared_file'])
+                    form = rng.choice(['bounds', 'bounds', 'geojson_string', 'geojson_file', 'json_file', 'shared_file', 'shared_file',
+                                       'feature_string', 'feature_collection_string', 'feature_collection_file'])
                     earlier = [i['work_dir'] for lt_ in lts for i in lt_['invocations'] if i.get('work_dir')] + [i['work_dir'] for i in invs if i.get('work_dir')]
                     if earlier and rng.random() < 0.6:
                         wd = rng.choice(earlier)      # the scratch directory of an earlier run, with whatever it left behind
@@ -403,6 +404,20 @@ class CliSim:
         gj = json.dumps(_geojson_of(inv['geom']['wkt']))
         if form == 'geojson_string':
             return gj
+        if form == 'feature_string':
+            return json.dumps({'type': 'Feature', 'properties': {'name': 'region'}, 'geometry': _geojson_of(inv['geom']['wkt'])})
+        if form in ('feature_collection_string', 'feature_collection_file'):
+            # two features: whatever the library makes of a FeatureCollection, the command line must make the same of it
+            geom = _geojson_of(inv['geom']['wkt'])
+            other = {'type': 'Point', 'coordinates': [500.0, 95.0]}
+            fc = json.dumps({'type': 'FeatureCollection', 'features': [
+                {'type': 'Feature', 'properties': {}, 'geometry': geom}, {'type': 'Feature', 'properties': {}, 'geometry': other}]})
+            if form == 'feature_collection_string':
+                return fc
+            path = os.path.join(scratch, inv['out'] + '.fc.geojson')
+            with open(path, 'w') as f:
+                f.write(fc)
+            return path
         if form == 'shared_file':
             # the user keeps one region file and edits it between runs: same argument text, other content
             path = os.path.join(scratch, 'region.geojson')
